@@ -433,4 +433,34 @@ func dischargeAll(obls []*Obligation, cfg SolverCfg) {
 		}(o)
 	}
 	wg.Wait()
+	// last chance: an obligation no back end decided within the limit is tried once more alone, with a long limit and
+	// other seeds, a few at a time (a loaded machine must not turn a proof that exists into an alarm)
+	var undecided []*Obligation
+	for _, o := range obls {
+		if o.Status == "unknown" && !o.Vacuity {
+			undecided = append(undecided, o)
+		}
+	}
+	if len(undecided) == 0 || len(undecided) > 24 {
+		return
+	}
+	sem2 := make(chan struct{}, 4)
+	for _, o := range undecided {
+		wg.Add(1)
+		sem2 <- struct{}{}
+		go func(o *Obligation) {
+			defer wg.Done()
+			defer func() { <-sem2 }()
+			c2 := cfg
+			c2.TimeoutS = cfg.TimeoutS * 4
+			c2.Seed = cfg.Seed + 7
+			prev := o.TimeS
+			discharge(o, c2)
+			o.TimeS += prev
+			if o.Status == "discharged" {
+				o.Backend += "(retry)"
+			}
+		}(o)
+	}
+	wg.Wait()
 }
